@@ -262,6 +262,7 @@ func run(c *hx.Ctx) error {
 	if err := operatorTables(c); err != nil {
 		return err
 	}
+	strContentsStream(c)
 
 	// ---- 4. corpus
 	corpus(c)
